@@ -20,6 +20,8 @@ EXPLANATION = (
     "in fixed_rows is a DataFormatError with the location; widths come from field_names_and_lengths."
     " Added in rounds 6 and 7: (O13.9) a stream whose name is missing, None, a file descriptor or bytes can be"
     " read like any other (C04's source-name table)."
+    " Added in rounds 8 and 9: A data character compared with a literal outside CR / LF is a choice (both answers"
+    " explored)."
 )
 ASSUMPTIONS = ["the text stream's read(n) returns up to n characters and '' only at the end of input"]
 
